@@ -317,6 +317,60 @@ class World:
         except BaseException as e:   # an exception escaping the responder thread is an observed event
             escaped.append(f'{type(e).__name__}: {e}'[:120])
 
+    # ------------------------------------------------------------ shut down while starting up
+    def run_early_shutdown(self, rng, n):
+        """shutdown() is called by another thread while the responder thread is still in its first lines (a termination
+        request right after the start): whatever the interleaving, after shutdown() has returned the thread ends and
+        nobody answers on the discovery port any more"""
+        from vlib import lineinject
+        r = self.r
+        inj = lineinject.LineInjector(self.disc.UDPListener.run, name='c19-early-shutdown')
+        try:
+            for i in range(n):
+                k = 1 + i % 4
+                lst = self.disc.UDPListener('eq.verif', 'responder under test', ['tcp://10767'], self.log, startup_broadcast=False)
+                escaped = []
+                state = {}
+
+                def body(lst=lst, k=k):
+                    inj.arm(k, lst.shutdown)
+                    try:
+                        self._run(lst, escaped)
+                    finally:
+                        state['injected'] = inj.disarm()
+                th = threading.Thread(target=body, daemon=True)
+                th.start()
+                time.sleep(0.05)
+                if th.is_alive() and not state.get('injected') and inj.thread is None:
+                    lst.shutdown()      # the line was never reached (k beyond the start-up lines): an ordinary shutdown
+                th.join(2)
+                r.count('shutdowns_during_start_up')
+                case = {'sub': 'early-shutdown', 'before_line': k}
+                if th.is_alive():
+                    lst.shutdown()
+                    r.violation('C19/responder/thread-alive-after-shutdown/shutdown-during-start-up',
+                                f'shutdown() called by a second thread before line {k} of UDPListener.run: the responder thread is still alive 2 s later', case)
+                    return
+                b = socket.socket(socket.AF_INET, socket.SOCK_DGRAM)
+                try:
+                    b.bind(('127.0.0.1', 0))
+                    b.settimeout(0.15)
+                    b.sendto(b'{"SECoP": "discover"}', ('127.0.0.1', self.port))
+                    try:
+                        b.recvfrom(2048)
+                        r.violation('C19/responder/answers-after-shutdown/shutdown-during-start-up',
+                                    f'shutdown() before line {k} of UDPListener.run: a discovery request is still answered afterwards', case)
+                        return
+                    except (socket.timeout, ConnectionError):
+                        pass
+                finally:
+                    b.close()
+                if escaped:
+                    r.violation('C19/responder/exception-escapes/shutdown-during-start-up', escaped[0], case)
+                    return
+        finally:
+            inj.close()
+
     # ------------------------------------------------------------ announced port really listens
     def run_tcp(self):
         r = self.r
@@ -487,6 +541,7 @@ def run_shard(shard):
     w.quiet_gap = shard.get('quiet_gap', 0)
     w.run_identities(rng, shard['n_id'])
     w.run_responder(rng, shard['n_dg'])
+    w.run_early_shutdown(rng, 8)
     if shard['idx'] == 0:
         w.run_tcp()
     if shard['idx'] == 1:
